@@ -208,6 +208,11 @@ func (b *bigmachineExecutor) invocationReader(invIndex uint64) (io.ReadCloser, e
 func (b *bigmachineExecutor) addInvocation(inv execInvocation) (bool, error) {
 	b.mu.Lock()
 	defer b.mu.Unlock()
+	return b.addInvocationLocked(inv)
+}
+
+// addInvocationLocked implements addInvocation. b.mu must be held.
+func (b *bigmachineExecutor) addInvocationLocked(inv execInvocation) (bool, error) {
 	if _, ok := b.invocations[inv.Index]; ok {
 		return false, nil
 	}
@@ -223,7 +228,16 @@ func (b *bigmachineExecutor) addInvocation(inv execInvocation) (bool, error) {
 			continue
 		}
 		if _, ok := b.invocations[result.invIndex]; !ok {
-			panic(fmt.Sprintf("result from unknown invocation %d", result.invIndex))
+			// None of the tasks of the result's invocation has been run by
+			// this executor: the invocation compiled to no tasks of its
+			// own, e.g. a Func that returns one of its Result arguments.
+			// Workers must still compile it to resolve the reference.
+			if result.inv.Index != result.invIndex {
+				panic(fmt.Sprintf("result from unknown invocation %d", result.invIndex))
+			}
+			if _, err := b.addInvocationLocked(result.inv); err != nil {
+				return false, err
+			}
 		}
 		inv.Args[i] = invocationRef{result.invIndex}
 		if b.invocationDeps[inv.Index] == nil {
